@@ -271,6 +271,14 @@ func c17Run(r *vkit.Run) {
 		`vector(1) unless vector(1)`, `vector(1) and (vector(2) unless vector(2))`, `sum(vector(1) unless vector(1))`, `topk(1, vector(1) unless vector(1))`, `sort(vector(1) unless vector(1))`,
 		`count_over_time({nosuch="x"}[10s])`, `sum(count_over_time({nosuch="x"}[10s])) / sum(count_over_time({nosuch="y"}[10s]))`, `quantile_over_time(0.5, {nosuch="x"} | unwrap v [10s]) by (a)`,
 		`count_over_time({}[10s]) > 100000`, `(count_over_time({}[10s]) > 100000) or vector(0)`, `{nosuch="x"}`, `{} |= "no such needle at all"`,
+		// integer, float and duration parameters at and beyond the limits of their types
+		`topk(2147483648, count_over_time({}[10s]))`, `topk(4294967296, count_over_time({}[10s])) by (a)`, `topk(9223372036854775807, count_over_time({}[10s]))`, `bottomk(9223372036854775807, count_over_time({} | json [10s])) by (a)`,
+		`topk(9223372036854775808, count_over_time({}[10s]))`, `bottomk(1e18, count_over_time({}[10s]))`, `topk(1.5, count_over_time({}[10s]))`, `topk(9223372036854775807, vector(1))`,
+		`quantile_over_time(1e308, {} | unwrap v [10s])`, `quantile_over_time(-1e308, {} | logfmt | unwrap v [10s]) by (a)`, `quantile_over_time(0.5, {} | logfmt | unwrap v [2562047h])`,
+		`count_over_time({}[2562047h])`, `count_over_time({}[106751d])`, `count_over_time({}[292y])`, `count_over_time({}[293y])`, `count_over_time({}[9223372036s])`, `count_over_time({}[10s] offset 2562047h)`, `count_over_time({}[10s] offset -2562047h)`, `count_over_time({}[2562047h] offset 2562047h)`,
+		`rate({}[2562047h])`, `bytes_rate({}[1ns])`, `rate({} | logfmt | unwrap v [1ns])`, `vector(1e308) * vector(1e308)`, `vector(-1e308) - vector(1e308)`, `vector(9223372036854775807) % vector(0.5)`,
+		`{} | logfmt | v > 9223372036854775807`, `{} | logfmt | d > 2562047h`, `{} | logfmt | d > 2562048h`, `{} | logfmt | sz >= 8EiB`, `{} | logfmt | sz >= 16EiB`, `{} | logfmt | sz > 9223372036854775807B`,
+		`{} | line_format "{{ repeat 1000000 .a }}"`, `{} | line_format "{{ trunc 9223372036854775807 .a }}"`, `{} | line_format "{{ substr 0 9223372036854775807 .a }}"`, `{} | line_format "{{ alignLeft 9223372036854775807 .a }}"`, `{} | line_format "{{ add 9223372036854775807 1 }}"`,
 	} {
 		visit(q)
 	}
